@@ -9,6 +9,9 @@ import (
 	"runtime/debug"
 	"sort"
 	"strconv"
+	"strings"
+
+	"golang.org/x/tools/go/ssa"
 )
 
 // Property is one registered property checker.
@@ -31,6 +34,7 @@ func main() {
 	verif := flag.String("verif", "", "verif directory (default: cwd)")
 	explain := flag.String("explain", "", "print a replay file")
 	list := flag.Bool("list", false, "list properties")
+	dump := flag.String("dump", "", "debug: pkg:Func[,mod] print SSA with value paths and edge conditions")
 	flag.Parse()
 
 	if *explain != "" {
@@ -43,6 +47,10 @@ func main() {
 		_ = json.Unmarshal(b, &v)
 		out, _ := json.MarshalIndent(v, "", "  ")
 		fmt.Println(string(out))
+		return
+	}
+	if *dump != "" {
+		debugDump(*repo, *dump)
 		return
 	}
 	if *list {
@@ -113,4 +121,35 @@ func runProperty(p *Property, tier, repo, verif string, seed int64) (code int) {
 	r.W = w
 	p.Run(w, r)
 	return r.Finish(verif)
+}
+
+func debugDump(repo, spec string) {
+	mod := modEngine
+	if i := strings.LastIndex(spec, ","); i >= 0 {
+		mod, spec = spec[i+1:], spec[:i]
+	}
+	i := strings.LastIndex(spec, ":")
+	w, err := LoadWorld(repo, mod)
+	if err != nil {
+		fmt.Println(err)
+		return
+	}
+	fn := w.Fn(spec[:i], spec[i+1:])
+	if fn == nil {
+		fmt.Println("not found")
+		return
+	}
+	for _, f := range Anons(fn) {
+		fmt.Printf("FUNC %s\n", f.String())
+		for _, b := range f.Blocks {
+			fmt.Printf(" block %d (%s) conds=%s\n", b.Index, b.Comment, condsString(CondsOf(b)))
+			for _, in := range b.Instrs {
+				if v, ok := in.(ssa.Value); ok {
+					fmt.Printf("   %-6s = %-40.40s | %s\n", v.Name(), in.String(), Path(v))
+				} else {
+					fmt.Printf("   %s\n", in.String())
+				}
+			}
+		}
+	}
 }
